@@ -20,11 +20,17 @@ const semicolon = ";" // From grpcinterceptors.go in onos-lib-go
 // TODO replace the following with fine grained RBAC using OpenPolicyAgent Rego in 2021 Q2
 func TemporaryEvaluate(md metautils.NiceMD) error {
 	adminGroups := os.Getenv("ADMINGROUPS")
+	// ADMINGROUPS is a list of group names: a caller's group must be exactly one of them
+	adminGroupList := strings.FieldsFunc(adminGroups, func(r rune) bool {
+		return r == ',' || r == ';' || r == ' '
+	})
 	var match bool
 	for _, g := range strings.Split(md.Get("groups"), semicolon) {
-		if strings.Contains(adminGroups, g) {
-			match = true
-			break
+		for _, adminGroup := range adminGroupList {
+			if g != "" && g == adminGroup {
+				match = true
+				break
+			}
 		}
 	}
 	if !match {
